@@ -8,7 +8,7 @@ from . import bpmodel, c15_callables, oalsyn
 from .oalgen import Printer, render
 
 
-def layout_text(body, newline_every=True, case=None):
+def layout_text(body, newline_every=True, case=None, style=0):
     """print a body with one statement per line (nested blocks indented by the token stream only); case: optional list
     of spelling styles for the keywords (oalsyn.caser)"""
     p = Printer(choose=lambda key, options: options[0], case=oalsyn.caser(case) if case else None)
@@ -16,8 +16,9 @@ def layout_text(body, newline_every=True, case=None):
     gaps = []
     for i, (text, kind) in enumerate(p.toks):
         prev = p.toks[i - 1][0] if i else None
-        gaps.append('\n' if prev == ';' else (' ' if i else ''))
-    text, pos = render(p.toks, gaps)
+        gaps.append('\n' if prev == ';' and style == 0 else (' ' if i else ''))
+    # style 1: the whole body on one line, except that 'end if / for / while' is broken inside the token
+    text, pos = render(p.toks, gaps, ['\n', ' \n\t', '\n'] if style == 1 else None)
     return p, text, pos
 
 
@@ -42,12 +43,12 @@ def poison_prebuild():
 
 
 class Fixture(object):
-    def __init__(self, tape, order=(), texts=None, case=None, states=None):
+    def __init__(self, tape, order=(), texts=None, case=None, states=None, style=0):
         """texts: optional {kind:name -> body text} overriding the generated bodies (idempotence round)"""
         self.callables, self.features, _t = c15_callables.gen_graph(tape, for_prebuild=True, states=states)
         self.printed = {}
         for c in self.callables:
-            p, text, pos = layout_text(c.body, case=case)
+            p, text, pos = layout_text(c.body, case=case, style=style)
             self.printed[c.kind + ':' + c.name] = (p, text, pos)
         D = c15_callables.diagram_with(self.callables, None, second_group=True)
         D['irdt'] = True
